@@ -27,7 +27,8 @@ LEVEL = "exploration"
 RULE = ("for every catalogue record (vlib/gen/entities_catalog.py; one per entity class reachable from a layer's receive or send "
         "handlers): receive path - generated stanzas of the documented shape (optional attributes present/absent, 0..n list "
         "children, values in kind) converted to the entity and back; send path - generated constructor arguments, the produced "
-        "tree pushed through the real encoder and decoder. Non-trivial = (receive) the shape has an optional attribute present and "
+        "tree pushed through the real encoder and decoder; binary fields are mostly short and, in dedicated draws per class that has one, of "
+        "a size at a length-class boundary of the wire format (255 B .. 200 kB). Non-trivial = (receive) the shape has an optional attribute present and "
         "one absent, or >= 2 list children, or (send) at least one optional argument given. Distinct = distinct canonical JSON.")
 ASSUMPTIONS = [
     "stanza shapes come from the class docstrings, the fixtures and the fields each parser reads; value kinds are realistic "
@@ -275,10 +276,19 @@ def plan(tier):
         strategies.append(("recv:" + r.name,
                            S.shape_strategy(r.shape).map(lambda t, _n=r.name: {"sub": "recv", "name": _n, "tree": S.tree_to_json(t)}),
                            n_recv))
+        if S.shape_has_blob(r.shape):
+            strategies.append(("recv_large:" + r.name,
+                               S.shape_strategy(r.shape, large=True).map(lambda t, _n=r.name: {"sub": "recv", "name": _n, "tree": S.tree_to_json(t)}),
+                               1 if quick else 10))
     for r in [r for r in E.SEND if keep(r)]:
         strategies.append(("send:" + r.name,
                            S.args_strategy(r.args, r.kwargs).map(lambda ak, _n=r.name: {"sub": "send", "name": _n, "args": ak[0], "kwargs": ak[1]}),
                            n_send))
+        if S.args_have_blob(r.args, r.kwargs):
+            strategies.append(("send_large:" + r.name,
+                               S.args_strategy(r.args, r.kwargs, large=True).map(lambda ak, _n=r.name: {"sub": "send", "name": _n, "args": ak[0],
+                                                                                                        "kwargs": ak[1]}),
+                               1 if quick else 10))
     return {
         "shards": 16,
         "enumerations": [],
